@@ -112,7 +112,9 @@ def outside_class(roi, width, height):
         parts.append("roi-last-row-equals-minus-one")
     elif r_last < -1:
         parts.append("roi-last-row-below-minus-one")
-    return "+".join(parts)
+    # one stable class per witness: the first boundary ("equals") condition when there is one
+    boundary = [p for p in parts if "equals" in p]
+    return boundary[0] if boundary else "+".join(parts)
 
 
 def nodata_samples(img, nodata):
@@ -316,11 +318,10 @@ def make_roi(cf, cl, rf, rl, margins):
 
 def axis_configs(n):
     """all (first, last, margin_before, margin_after), first <= last in [-2, n+2], margins in {0,1,3}"""
-    for first in range(-2, n + 3):
-        for last in range(first, n + 3):
-            for mb in MARGINS:
-                for ma in MARGINS:
-                    yield first, last, mb, ma
+    for mb, ma in sorted(itertools.product(MARGINS, MARGINS), key=lambda m: (m[0] + m[1], m)):  # simplest witnesses first
+        for first in sorted(range(-2, n + 3), key=abs):
+            for last in range(first, n + 3):
+                yield first, last, mb, ma
 
 
 def few_axis_configs(n):
@@ -452,19 +453,19 @@ def _roi_axis_sweep(width, height, rng, per_axis_margins=None):
     for cf, cl, ml, mr in axis_configs(width):
         if per_axis_margins is not None and rng.random() > per_axis_margins:
             continue
-        rf, rl, mu, md = few_axis_configs(height)[int(rng.integers(0, 4))]
+        rf, rl, mu, md = few_axis_configs(height)[0 if ml + mr == 0 else int(rng.integers(0, 4))]
         rois.append(make_roi(cf, cl, rf, rl, (ml, mu, mr, md)))
     for rf, rl, mu, md in axis_configs(height):
         if per_axis_margins is not None and rng.random() > per_axis_margins:
             continue
-        cf, cl, ml, mr = few_axis_configs(width)[int(rng.integers(0, 4))]
+        cf, cl, ml, mr = few_axis_configs(width)[0 if mu + md == 0 else int(rng.integers(0, 4))]
         rois.append(make_roi(cf, cl, rf, rl, (ml, mu, mr, md)))
     return rois
 
 
 def run(tier, seed):
     rng = np.random.default_rng(seed)
-    rec = Recorder()
+    rec = Recorder(max_violations=40)
     rec.functions.update({"pandora.img_tools.get_window", "pandora.img_tools.create_dataset_from_inputs",
                           "pandora.img_tools.add_mask", "pandora.img_tools.add_no_data", "pandora.img_tools.add_disparity",
                           "pandora.img_tools.add_classif", "pandora.img_tools.add_segm"})
